@@ -56,6 +56,13 @@ class Sock:
     def close(self):
         self.closed += 1
 
+    def shutdown(self, how):
+        # case "peer_gone": the client has already reset the connection - shutdown(2) fails, close(2) still has to happen
+        self.shut = getattr(self, "shut", 0) + 1
+        if CASE.get("peer_gone"):
+            import errno as _e
+            raise OSError(_e.ENOTCONN, "Transport endpoint is not connected")
+
     def recv(self, n):
         return b""
 
@@ -507,12 +514,12 @@ def step_twin(phases: List[int], deadlines: List[int], now: int, tape: List[int]
 
 
 OBLIGATIONS = [
-    Ob("C13.finish", "step_finish", cases=[{"k": k} for k in (1, 2, 3)], timeout=600,
+    Ob("C13.finish", "step_finish", cases=[{"k": k} for k in (1, 2, 3)] + [{"k": 2, "peer_gone": True}], timeout=600,
        bound="<=3 connections in arbitrary phases; completion outcome {result keepalive|close, exception, cancelled}; alive flag"),
     Ob("C13.finish_race", "step_finish_race", cases=[{"k": k} for k in (1, 2, 3)], timeout=600,
        bound="keep-alive completion with the poller firing the readable callback at the moment of registration"),
-    Ob("C13.murder", "step_murder", cases={"quick": [{"k": k, "tape": 2} for k in (1, 2, 3)],
-                                           "thorough": [{"k": k, "tape": 4} for k in (1, 2, 3)]},
+    Ob("C13.murder", "step_murder", cases={"quick": [{"k": k, "tape": 2} for k in (1, 2, 3)] + [{"k": 2, "tape": 1, "peer_gone": True}],
+                                           "thorough": [{"k": k, "tape": 4} for k in (1, 2, 3)] + [{"k": 3, "tape": 2, "peer_gone": True}]},
        timeout={"quick": 600, "thorough": 2400},
        bound="<=3 connections, symbolic deadlines/clock in 90..110, handler completions injected at <=2 (thorough 4) lock releases"),
     Ob("C13.readable", "step_readable", cases={"quick": [{"k": k, "tape": 2} for k in (1, 2, 3)],
